@@ -275,6 +275,32 @@ pub fn item_inputs(f: &F) -> Vec<(String, Kind)> {
 
 pub fn replay_case(c: &J) -> Result<(), String> {
     let f = fmts::by_name(c["format"].as_str().unwrap_or("ascii"));
+    if c["op"].as_str() == Some("classification_pair") {
+        let expect = match c["expect"].as_str() { Some("Task") => Kind::Task, Some("Sentence") => Kind::Sentence, _ => Kind::Term };
+        let rs = f.e.parse_multi([c["first"].as_str().unwrap_or(""), c["second"].as_str().unwrap_or("")]);
+        if let Some(Ok(n)) = rs.get(1) {
+            if kind_of(n) != expect {
+                return Err(format!("the second input carries the items of a {expect:?} but is classified as {:?}", kind_of(n)));
+            }
+        }
+        return Ok(());
+    }
+    if c["op"].as_str() == Some("classification_batch") {
+        let items = item_inputs(&f);
+        let mut batch: Vec<&(String, Kind)> = items.iter().collect();
+        if c["reversed"].as_bool() == Some(true) {
+            batch.reverse();
+        }
+        let kinds: Vec<Option<Kind>> = f.e.parse_multi(batch.iter().map(|(s, _)| s.as_str())).into_iter().map(|r| r.ok().map(|n| kind_of(&n))).collect();
+        for (i, k) in kinds.iter().enumerate() {
+            if let Some(k) = k {
+                if *k != batch[i].1 {
+                    return Err(format!("position {i}: {:?} carries the items of a {:?} but is classified as {k:?}", batch[i].0, batch[i].1));
+                }
+            }
+        }
+        return Ok(());
+    }
     if c["op"].as_str() == Some("classification_items") {
         let k = match c["expect"].as_str() { Some("Task") => Kind::Task, Some("Sentence") => Kind::Sentence, _ => Kind::Term };
         return case_items(&f, c["input"].as_str().unwrap_or(""), k).map(|_| ());
@@ -316,6 +342,72 @@ pub fn run(run: &Run) {
             match case_items(&f, s, *k) {
                 Ok(n) => acc += n as u64,
                 Err(msg) => run.violation(&format!("[{}] {}", f.name, msg), json!({"op": "classification_items", "format": f.name, "input": s, "expect": format!("{k:?}")}), &[]),
+            }
+        }
+        // the same inputs as ONE batch through the multi-input entry point, in both orders (a term that carried a
+        // budget is followed by a plain sentence, a rejected input by an accepted one ...): the kind of every
+        // accepted position follows the stated rule
+        for reversed in [false, true] {
+            let mut batch: Vec<&(String, Kind)> = items.iter().collect();
+            if reversed {
+                batch.reverse();
+            }
+            let texts: Vec<&str> = batch.iter().map(|(s, _)| s.as_str()).collect();
+            run.eval(texts.len() as u64);
+            match quiet_catch(AssertUnwindSafe(|| f.e.parse_multi(texts.clone()).into_iter().map(|r| r.ok().map(|n| kind_of(&n))).collect::<Vec<_>>())) {
+                Err(p) => run.violation(&format!("[{}] parse_multi over the {} item-subset inputs panics: {p}", f.name, texts.len()), json!({"op": "classification_batch", "format": f.name, "reversed": reversed}), &[]),
+                Ok(kinds) => {
+                    if kinds.len() != batch.len() {
+                        run.violation(&format!("[{}] parse_multi returns {} results for {} inputs", f.name, kinds.len(), batch.len()), json!({"op": "classification_batch", "format": f.name, "reversed": reversed}), &[]);
+                    }
+                    for (i, k) in kinds.iter().enumerate() {
+                        if let Some(k) = k {
+                            if *k != batch[i].1 {
+                                run.violation(
+                                    &format!("[{}] position {i} of a parse_multi batch: {:?} carries the items of a {:?} but is classified as {k:?} (the input before it was {:?})", f.name, batch[i].0, batch[i].1, if i > 0 { batch[i - 1].0.as_str() } else { "" }),
+                                    json!({"op": "classification_batch", "format": f.name, "reversed": reversed, "position": i}),
+                                    &[],
+                                );
+                                break;
+                            }
+                        }
+                    }
+                }
+            }
+        }
+        // every ordered PAIR of item-subset inputs as a two-input batch: whatever the first input leaves behind in the
+        // reused parser (a budget read for a value that turned out to be a bare term, a truth read before a
+        // rejection), the kind of an accepted second input follows the stated rule
+        {
+            use rayon::prelude::*;
+            let n_pairs = (items.len() * items.len()) as u64;
+            run.eval(n_pairs);
+            run.count(&format!("item_subset_pair_batches_{}", f.name), n_pairs);
+            let bad: Vec<(usize, usize, Kind)> = (0..items.len())
+                .into_par_iter()
+                .filter_map(|i| {
+                    let _w = crate::watch::enter_with(|| format!("pair batches after {:?}", items[i].0));
+                    for j in 0..items.len() {
+                        let rs = match quiet_catch(AssertUnwindSafe(|| f.e.parse_multi([items[i].0.as_str(), items[j].0.as_str()]))) {
+                            Ok(rs) => rs,
+                            Err(_) => continue, // totality of the entry point is C04's business
+                        };
+                        if let Some(Ok(n)) = rs.get(1) {
+                            let k = kind_of(n);
+                            if k != items[j].1 {
+                                return Some((i, j, k));
+                            }
+                        }
+                    }
+                    None
+                })
+                .collect();
+            for (i, j, k) in bad.into_iter().take(20) {
+                run.violation(
+                    &format!("[{}] parse_multi([{:?}, {:?}]): the second input carries the items of a {:?} but is classified as {k:?}", f.name, items[i].0, items[j].0, items[j].1),
+                    json!({"op": "classification_pair", "format": f.name, "first": items[i].0, "second": items[j].0, "expect": format!("{:?}", items[j].1)}),
+                    &[],
+                );
             }
         }
         run.count(&format!("item_subset_inputs_{}", f.name), items.len() as u64);
